@@ -5,6 +5,7 @@ import (
 	"errors"
 	"fmt"
 	"reflect"
+	"strings"
 
 	"github.com/go-fed/activity/streams"
 	"github.com/go-fed/activity/streams/vocab"
@@ -145,7 +146,7 @@ func c14Exec(r *verdict.Run, cs c14Case) {
 	own := cs.Value
 	unknownType := O.Types[own] == nil
 	want := -1
-	if !unknownType && cs.Impostor == "" && (cs.Alias == "" || cs.Prefixed) {
+	if !unknownType && cs.Impostor == "" && (cs.Alias == "" || cs.Prefixed != strings.HasPrefix(cs.Alias, "then-string")) {
 		for i, k := range cs.Callbacks {
 			if k == own {
 				want = i
@@ -193,6 +194,19 @@ func c14Exec(r *verdict.Run, cs c14Case) {
 				ctx = append(ctx, uri)
 			}
 			ctx = append(ctx, map[string]interface{}{uri: "x"})
+			// the vocabulary named once more, bare, after the alias - under
+			// its own URI or under the other http / https spelling: the
+			// document then defines the bare name
+			other := "http://" + strings.TrimPrefix(uri, "https://")
+			if strings.HasPrefix(uri, "http://") {
+				other = "https://" + strings.TrimPrefix(uri, "http://")
+			}
+			switch cs.Alias {
+			case "then-string":
+				ctx = append(ctx, uri)
+			case "then-string-other":
+				ctx = append(ctx, other)
+			}
 			m = map[string]interface{}{"@context": ctx, "type": O.Types[own].Name}
 			if cs.Prefixed {
 				m["type"] = "x:" + O.Types[own].Name
@@ -451,6 +465,9 @@ func runC14(id string) int {
 		}
 		for _, al := range []string{"only", "after-string"} {
 			c14Exec(r, c14Case{Resolver: "JSONResolver", Value: k, Callbacks: []string{other, k}, Alias: al, Prefixed: true})
+			c14Exec(r, c14Case{Resolver: "JSONResolver", Value: k, Callbacks: []string{other, k}, Alias: al})
+		}
+		for _, al := range []string{"then-string", "then-string-other"} {
 			c14Exec(r, c14Case{Resolver: "JSONResolver", Value: k, Callbacks: []string{other, k}, Alias: al})
 		}
 		name := O.Types[k].Name
